@@ -239,6 +239,15 @@ pub fn cases(quick: bool) -> Vec<Case> {
             out.push(Case { before, away: h[split..].to_vec(), joiner: Joiner::FromDisk });
         }
     }
+    // third family: the joiner has keys on its disk but its oplog is discarded at the restart (a
+    // key it had never seen was written after its last snapshot), so it gets a FULL sync on top of
+    // what its disk holds; everything of the history happens while it is away
+    let mut histories3: Vec<Vec<Op>> = vec![];
+    rec(&mut vec![], &letters, if quick { 2 } else { 3 }, &mut histories3);
+    for h in histories3 {
+        let before = vec![Op::CreateDb("d1", "none"), Op::Set("d1", "b", "v"), Op::Set("d1", "a", "v"), Op::Snapshot("d1"), Op::Inc("d1", "fresh")];
+        out.push(Case { before, away: h, joiner: Joiner::FromDisk });
+    }
     for h in histories {
         let mut full = vec![Op::CreateDb("d1", "none")];
         full.extend(h);
